@@ -300,7 +300,32 @@ func allOrNothing(x *Ctx) {
 		return ""
 	}
 	// CAR: the yield function of the range-over-func loop
-	if y := x.fn("C17.R3", ctnPkg+"FromCarReader$1"); y != nil {
+	// (the body of the loop over the blocks of readCar's iterator, in FromCarReader or wherever that loop was moved to)
+	var carBody *ssa.Function
+	for _, g := range x.P.ModuleFuncs() {
+		if g.Parent() == nil || !strings.Contains(g.Synthetic, "range-over-func") || x.P.PkgPathOf(g) != load.Module+"/pkg/container" || !x.P.IsLibrary(g) {
+			continue
+		}
+		for _, b := range g.Blocks {
+			for _, in := range b.Instrs {
+				if c, ok := in.(ssa.CallInstruction); ok {
+					if h := c.Common().StaticCallee(); h != nil && strings.HasSuffix(load.ShortName(h), ".addToken") && carBody == nil {
+						root := g
+						for root.Parent() != nil {
+							root = root.Parent()
+						}
+						if fr := x.P.Func(ctnPkg + "FromCarReader"); fr != nil && (root == fr || x.P.ReachFrom(fr)[root]) {
+							carBody = g
+						}
+					}
+				}
+			}
+		}
+	}
+	if carBody == nil {
+		x.C.Unresolved("C17.R3", "car:loop-body", "-", "the loop over the CAR blocks that calls addToken was not found")
+	}
+	if y := carBody; y != nil {
 		x.noPath("C17.R3", "car:iterator-error", y, paths.WantTrue, atoms(map[string]bool{"eq(arg1,const(nil))": false}), 0, "the CAR loop does not continue after the block iterator yielded an error")
 		x.noPath("C17.R3", "car:addToken-error", y, paths.WantTrue, paths.CallFails(add), 0, "the CAR loop does not continue after addToken failed")
 		ok, detail := abortLeavesError(x, y)
